@@ -138,6 +138,7 @@ func stalePathTo(fn *ssa.Function, e ssa.Instruction, sink func(ssa.Instruction)
 func runC08(c *Ctx) {
 	r := c.R
 	defer rulePeekLifetime(c, "R8.5", "C08: a frame held by the application or queued for forwarding keeps its own payload bytes")
+	defer ruleV1Gate(c, "R8.6")
 	r.NotDecided = append(r.NotDecided,
 		"byte identity of forwarded frames as an observed fact (R8.1 is its code-shape part)",
 		"decode equality at the next hop for all non-canonical encodings (value level; R8.2 is the necessary condition named by the statement's parenthesis)",
@@ -364,4 +365,52 @@ func runC08(c *Ctx) {
 	if n < 3 {
 		r.Broken("R8.4", "re-encode sites", fmt.Sprintf("only %d found", n))
 	}
+}
+
+// ruleV1Gate (R8.6, = R4.2's v1 clause): decode and re-encode agree about version 1. The encoder never emits extension
+// fields in a v1 payload, so the decoder accepts a v1 payload only when it has exactly the base size: a payload
+// decoded (e.g. with extensions) that the re-encoding used for forwarding cannot reproduce would decode differently
+// at the next hop.
+func ruleV1Gate(c *Ctx, rule string) {
+	r := c.R
+	r.Rule(rule, "v1 decode / encode symmetry: ReadWriter.Read refuses a v1 payload whose length differs from sizeNormal before any field is decoded (the v1 encoder emits exactly sizeNormal bytes, never extensions)", 1)
+	rd := c.Fn("pkg/message", "ReadWriter.Read")
+	if rd == nil {
+		return
+	}
+	r.Functions[fnQual(rd)] = true
+	v2True := map[edge]bool{}
+	for _, iff := range ifsIn(rd) {
+		if tb, _, hit := succWhen(iff, "arg1"); hit {
+			v2True[edge{iff.Block(), tb}] = true
+		}
+	}
+	var v1If *ssa.If
+	var v1Pass, v1Fail *ssa.BasicBlock
+	for _, iff := range ifsIn(rd) {
+		if tb, fb, hit := succWhen(iff, "(len(arg0.Payload) != int(recv.sizeNormal))"); hit {
+			v1If, v1Fail, v1Pass = iff, tb, fb
+		}
+	}
+	ok := v1If != nil && len(v2True) > 0
+	why := "no `len(payload) != sizeNormal` test on the v1 path of ReadWriter.Read: v1 payloads of another length (e.g. carrying extension fields) are decoded although the v1 encoder cannot reproduce them"
+	if ok {
+		ret, isRet := v1Fail.Instrs[len(v1Fail.Instrs)-1].(*ssa.Return)
+		ok = isRet && len(ret.Results) == 2 && !isNilConst(ret.Results[1])
+		why = "a v1 payload of the wrong length is not refused with an error"
+		if ok {
+			cut := map[edge]bool{{v1If.Block(), v1Pass}: true}
+			for e := range v2True {
+				cut[e] = true
+			}
+			reach := reachFrom(rd.Blocks[0], cut, nil)
+			for _, ci := range callsNamed(rd, "message.readValue") {
+				if reach[ci.Block()] {
+					ok = false
+					why = "the v1 exact-length gate does not precede decoding on the v1 path"
+				}
+			}
+		}
+	}
+	r.Check(ok, rule, "ReadWriter.Read v1 exact length", c.Pos(rd.Pos()), "v1 payload must have exactly sizeNormal bytes", why)
 }
